@@ -376,7 +376,10 @@ var c15Filters = []string{"sort", "reverse", "uniq", "compact", "first", "last",
 func c15Records(t *rapid.T, n int, key string) []*hx.Spec {
 	var out []*hx.Spec
 	// a third of the record sets hold integers only (zero and negative ones too) and are realised as map[string]int
-	typed := rapid.IntRange(0, 2).Draw(t, "typed-records") == 1
+	mode := rapid.IntRange(0, 5).Draw(t, "typed-records")
+	typed := mode == 1
+	// and some are what a generic decoder hands out (map[any]any), or have a named string type as key type
+	keyRep := map[int]string{3: "anykey", 4: "namedkey"}[mode]
 	for i := 0; i < n; i++ {
 		rec := hx.SMap("id", hx.SInt(int64(i+1)))
 		for j, extra := 0, rapid.IntRange(0, 3).Draw(t, "extra"); j < extra; j++ {
@@ -401,6 +404,7 @@ func c15Records(t *rapid.T, n int, key string) []*hx.Spec {
 				rec.Keys, rec.E = append(rec.Keys, key), append(rec.E, hx.SInt(int64(rapid.IntRange(0, 3).Draw(t, "ki"))))
 			}
 		}
+		rec.R = keyRep
 		out = append(out, rec)
 	}
 	return out
